@@ -771,7 +771,7 @@ fn looks_like_artifact_id(value: &str) -> bool {
 
 #[cfg(kani)]
 #[path = "/verif/harness/rip-tui/state.rs"]
-mod verif_kani;
+pub mod verif_kani;
 
 #[cfg(test)]
 mod tests {
